@@ -36,6 +36,7 @@ InitModel(cfg) ==
       closeFault |-> FALSE,
       everFault |-> FALSE,
       closedOnce |-> FALSE,
+      texts    |-> Opt(cfg, "status_texts", <<>>),
       lx       |-> LxInit(cfg) ]
 
 Good(m2)   == [m |-> m2, fail |-> ""]
@@ -99,7 +100,7 @@ Dispatch(m, svc, segs, data, cap, choice, kind, viaUcs, routeSegs) ==
 
 (* ------------------------------------------------------------------------------------------------------------ *)
 (* One request frame.                                                                                              *)
-TxStep(m, ev) ==
+TxStep0(m, ev) ==
     IF Has(ev.choice, "incomplete") THEN Bad(m, "C11:framing")
     ELSE LET pf == ParseFrame(ev.b)  ch == ev.choice IN
     IF ~pf.ok THEN Bad(m, pf.why)
@@ -202,10 +203,25 @@ Tell(m, t) ==
 \* logged corruption; the specification recomputes the uncorrupted reply and applies the same corruption
 Corrupt(bytes, c) ==
     IF c[1] = "cut" THEN SubSeq(bytes, 1, IF c[2] < Len(bytes) THEN c[2] ELSE Len(bytes))
-    ELSE IF c[1] = "flip" THEN bytes                      \* value of the flipped byte is not recomputed: see RxStep
+    ELSE IF c[1] = "flip" THEN [i \in 1..Len(bytes) |-> IF i = c[2] + 1 THEN ByteXor(bytes[i], c[3]) ELSE bytes[i]]
+    ELSE IF c[1] = "encap" THEN SubSeq(bytes, 1, 2) \o <<0, 0>> \o SubSeq(bytes, 5, 8) \o LE(c[2], 4) \o SubSeq(bytes, 13, 24)
     ELSE bytes
+\* offset (in bytes) below which a reply cannot contain its CIP status words
+StatusEnd(bytes) == IF Len(bytes) >= 2 /\ bytes[1] = 112 THEN 50 ELSE 44
+TxStep(m, ev) ==
+    LET r == TxStep0(m, ev) IN
+    IF r.fail # "" \/ ~Has(ev.choice, "corrupt") \/ r.m.pend.kind # "reply" THEN r
+    ELSE LET c == ev.choice.corrupt  clean == r.m.pend.bytes  bad == Corrupt(clean, c) IN
+         Good([r.m EXCEPT !.pend = [kind |-> "reply", bytes |-> bad, tell |-> [k |-> "none"]],
+                          !.last = [k |-> "corrupt", how |-> c[1], short |-> Len(bad) < StatusEnd(clean), encap |-> c[1] = "encap" /\ c[2] # 0]])
 
 (* ------------------------------------------------------------------------------------------------------------ *)
+NamesStatusT(texts, err, st) ==
+    LET hits == {i \in 1..Len(texts) : texts[i][1] = st}
+        txt == IF hits = {} THEN <<>> ELSE texts[CHOOSE i \in hits : TRUE][2]
+    IN \/ (txt # <<>> /\ ContainsSeq(err.s, txt))
+       \/ ContainsSeq(Lower(err.s), Hex2(st))
+
 (* Identity as the user sees it (C16): every field exactly as encoded, vendor / product type through the exported  *)
 (* tables or 'UNKNOWN', serial as 8 lower-case hex digits.                                                          *)
 K(str) == str
@@ -238,7 +254,7 @@ TagTruthy(tg) == tg.truthy = 1
 RetStep(m, ev) ==
     LET api == ev.api IN
     IF ev.outcome = "hang" THEN Bad(m, "C10:hang")
-    ELSE IF ev.outcome = "exc" /\ ev.pycomm = 0 THEN Bad(m, "C10:foreign-exception")
+    ELSE IF ev.outcome = "exc" /\ ev.pycomm = 0 THEN Bad(m, "C10:foreign-exception+C13:foreign-exception")
     ELSE IF api \in {"close", "exit"} /\ ev.connected # 0 THEN Bad(m, "C10:close-state")
     ELSE IF api \in {"close", "exit"} /\ ~m.closeFault /\ m.alive /\ ev.faulted = 0
             /\ (m.sessions # {} \/ \E i \in 1..Len(m.conns) : m.conns[i].cid \in m.dConns) THEN Bad(m, "C10:target-dirty")
@@ -246,12 +262,19 @@ RetStep(m, ev) ==
             /\ ~(ev.outcome = "value" /\ ev.connected = 1) /\ ~(m.kind = "logix" /\ m.policy = "AllRefused") THEN Bad(m, IF m.closedOnce THEN "C10:reopen" ELSE "C10:open-failed")
     ELSE IF api = "generic" THEN
         LET it == m.call.intent  tg == ev.result.tags IN
-        IF ev.outcome # "value" THEN (IF m.nIntent = 0 \/ ev.faulted = 1 \/ m.last.k = "none" THEN Good(m) ELSE Bad(m, "C13:exception-on-reply"))
+        IF ev.outcome # "value" THEN (IF m.nIntent = 0 \/ ev.faulted = 1 \/ m.last.k \in {"none", "corrupt"} THEN Good(m) ELSE Bad(m, "C13:exception-on-reply"))
         ELSE IF Len(tg) # 1 THEN Bad(m, "C14:reply-value")
+        ELSE IF m.last.k = "corrupt" THEN
+             (IF m.last.short /\ TagTruthy(tg[1]) THEN Bad(m, "C13:short-reply-success")
+              ELSE IF m.last.encap /\ TagTruthy(tg[1]) THEN Bad(m, "C13:success-on-error")
+              ELSE IF ~TagTruthy(tg[1]) /\ (~IsS(tg[1].error) \/ Len(tg[1].error.s) = 0) THEN Bad(m, "C13:empty-error")
+              ELSE Good(m))
         ELSE IF m.last.k # "script" THEN Good(m)
+        ELSE IF m.last.status = 6 /\ it.service \in {3, 10, 82, 83, 85} THEN Good(m)     \* partial transfer on a service that may continue: unspecified here
         ELSE IF m.last.status # 0 THEN
              (IF TagTruthy(tg[1]) THEN Bad(m, "C13:success-on-error")
               ELSE IF ~IsS(tg[1].error) \/ Len(tg[1].error.s) = 0 THEN Bad(m, "C13:empty-error")
+              ELSE IF ~NamesStatusT(m.texts, tg[1].error, m.last.status) THEN Bad(m, "C13:status-not-named")
               ELSE Good(m))
         ELSE IF Has(it, "dtype")
              THEN LET d == Dec(it.dtype, m.last.data) IN
@@ -291,11 +314,12 @@ Step(m, ev) ==
       [] ev.k = "connect" -> Good(m)
       [] ev.k = "sockclose" -> Good([m EXCEPT !.sessions = {}, !.dHandle = <<>>, !.pend = NoPend])
       [] ev.k = "fault" -> Good([m EXCEPT !.alive = IF ev.kind = "eof" THEN FALSE ELSE @, !.closeFault = TRUE, !.everFault = TRUE])
-      [] ev.k = "noreply" -> IF m.pend.kind = "none" THEN Good(m) ELSE Bad(m, "MACHINERY:noreply-with-pending-reply")
+      [] ev.k = "noreply" -> IF m.pend.kind = "none" THEN Good(m)
+                             ELSE IF m.pend.bytes = <<>> THEN Good([m EXCEPT !.pend = NoPend])          \* a reply cut to nothing
+                             ELSE Bad(m, "MACHINERY:noreply-with-pending-reply")
       [] ev.k = "tx" -> TxStep(m, ev)
       [] ev.k = "rx" ->
            IF m.pend.kind # "reply" THEN Bad(m, "MACHINERY:unexpected-reply")
-           ELSE IF Has(ev, "corrupt") THEN Good([m EXCEPT !.pend = NoPend, !.last = [k |-> "corrupt"]])
            ELSE IF ev.b # m.pend.bytes THEN Bad(m, "MACHINERY:reply-mismatch")
            ELSE Good([Tell(m, m.pend.tell) EXCEPT !.pend = NoPend])
       [] ev.k = "lost" ->
